@@ -792,3 +792,171 @@ def check_C18(replay=None):
     chk.samples = events[:2] + events[-2:]
     _shutil.rmtree(d, ignore_errors=True)
     return chk.finish()
+
+
+# --------------------------------------------------------------------------------------------
+# C20  line editor
+# --------------------------------------------------------------------------------------------
+
+def check_C20(replay=None):
+    chk = Check("C20")
+    chk.rule = ("case = key sequence fed to the real Terminal::read through the cfg-gated key source (no TTY, no history file), from empty and non-empty history; enum: after seeded prefixes, EVERY sequence of L keys over "
+                "{Enter, Backspace, Delete, Left, Right, Ctrl+Left, Ctrl+Right, Up, Down, a b é Z 9 space + 😀 ; . ✓, Tab, DEL}; random: 20-200 keys. After every key the buffer, focused line, cursor and history index, and every command "
+                "handed out on Enter (split at ';'), must be what Editor.tla computes, with the cursor inside the focused line; a panic ends the case with an unexplained event. distinct = key sequences")
+    chk.assumptions = ["term::read_key, raw mode and prompt drawing need a TTY and are bypassed by the injected key source"]
+    vlib.build()
+    if replay:
+        raise vlib.ToolError("re-run `bin/check C20`; the replay file holds the failing key sequence")
+    thorough = chk.tier == "thorough"
+    chk.add_mc(tlc_mc("MC_Editor", "MC_Editor_deep.cfg" if thorough else "MC_Editor.cfg", workers=8, coverage=False, timeout=1200), "MC_Editor")
+    jobs = []
+    L = 3 if thorough else 2
+    parts = 8 if thorough else 2
+    for ph in range(parts):
+        jobs.append(("enum%d" % ph, ["gen", "edit", "--mode", "enum", "--len", L, "--stride", parts, "--phase", ph, "--seed", chk.seed]))
+    for k in range(4 if thorough else 2):
+        jobs.append(("rnd%d" % k, ["gen", "edit", "--mode", "random", "--n", 400 if thorough else 60, "--seed", chk.seed * 3 + k]))
+
+    def gen(job):
+        name, args = job
+        out = _wpath("c20_%s.ndjson" % name)
+        summ = harness(args + ["--out", out])
+        return out, summ, tlc_trace("Trace_Editor", out, timeout=2400)
+    for out, summ, res in parallel(gen, jobs, 8):
+        chk.add_trace(res, summ.get("cases", 0))
+        chk.evaluations += summ.get("cases", 0)
+        if res["consumed"] != res["nrec"]:
+            raise vlib.ToolError("Trace_Editor consumed %s of %s events" % (res["consumed"], res["nrec"]))
+        for i in sorted(res["bad"]):
+            # the case = events from its init
+            evs = []
+            with open(out) as f:
+                for j, line in enumerate(f, 1):
+                    e = json.loads(line)
+                    if e["ev"] == "init":
+                        evs = []
+                    evs.append(e)
+                    if j == i:
+                        break
+            ev = evs[-1]
+            key = "panic:" + ev.get("msg", "").split(" @ ")[0][:50] if ev["ev"] == "end" and ev.get("kind") == "panic" else "%s:%s" % (ev["ev"], (ev.get("key") or {}).get("k", ""))
+            chk.violation(key, "editor event not explained by Editor.tla: %s" % json.dumps(ev)[:300], {"family": "edit", "events": evs})
+        if not chk.samples:
+            chk.samples = vlib.sample_lines(out, 4)
+        os.remove(out)
+    chk.distinct = chk.evaluations
+    return chk.finish()
+
+
+# --------------------------------------------------------------------------------------------
+# C19  assembling is a pure function of the text
+# --------------------------------------------------------------------------------------------
+
+def check_C19(replay=None):
+    chk = Check("C19")
+    chk.rule = ("case = sequence of 3-7 sources (valid; failing in the lexer; failing after labels were recorded: duplicate label, undefined reference, out-of-range operand at the end; sharing label names with the predecessor) "
+                "assembled one after the other on ONE thread with reset_state() in between, the whole sequence twice; every result (verdict, origin, words, rendered diagnostic) must equal both Assembler.tla's answer for that text "
+                "and the result of assembling the same text on a fresh thread. distinct = assemblies")
+    chk.assumptions = ["the watch closure itself (hotwatch event delivery) is not driven; it calls the same assemble + reset_state + reclaim sequence"]
+    vlib.build()
+    if replay:
+        return _asm_replay(chk, replay)
+    thorough = chk.tier == "thorough"
+    chk.add_mc(tlc_mc("MC_Session", "MC_Session.cfg", workers=4, coverage=False), "MC_Session")
+    sanity = tlc_mc("MC_Session", "MC_Session_noreset.cfg", workers=4, coverage=False)
+    chk.extra["model_without_reset_violates_Pure"] = not sanity["ok"]
+    if sanity["ok"]:
+        raise vlib.ToolError("MC_Session without the reset should violate Pure (the model would be vacuous)")
+    chk.states += sanity["distinct"]
+    chk.transitions += sanity["generated"]
+    jobs = [("sess%d" % k, ["--fam", "session", "--n", 200 if thorough else 40, "--seed", chk.seed * 3 + k]) for k in range(3)]
+    traces = _asm_jobs_run(chk, jobs)
+    chk.distinct = chk.evaluations
+    chk.samples = [_slim(e) for e in vlib.sample_lines(traces[0], 2)]
+    for t in traces:
+        os.remove(t)
+    return chk.finish()
+
+
+def check_C17(replay=None):
+    def jobs(chk, thorough):
+        n = 400 if thorough else 60
+        return [("view%d" % k, ["--mode", "view", "--n", n // 4, "--seed", chk.seed * 23 + k]) for k in range(4)]
+    return _run_family("C17",
+                       "session = arbitrary multi-label program (all statement forms, operand-less after operand-ful, .fill/.blkw/.stringz, colon labels, commas, comments with multi-byte characters, "
+                       "non-default origins, .break/.orig interleaved, several statements per line) rendered in seeded layouts, loaded under the real debugger and never executed; script = `assembly <a>` for every address "
+                       "from origin-1 to one past the image, and `goto L`, `assembly`, `print L+1`, `assembly L-1`, `break add L` for every label; Trace_Debug.tla requires the printed text to be exactly the statement text the "
+                       "renderer wrote for that word (nothing for addresses without statement) and every label to resolve to origin + Assembler line - 1 (+ offset). distinct = sessions",
+                       DBG_ASSUME + ["statement texts are the renderer's record of what it wrote: mnemonic/directive through last operand"], jobs, replay,
+                       mc=lambda th: [("MC_Assembler", "MC_Assembler.cfg")])
+
+
+# --------------------------------------------------------------------------------------------
+# C05  the assembler is total
+# --------------------------------------------------------------------------------------------
+
+def check_C05(replay=None):
+    chk = Check("C05")
+    chk.rule = ("case = text given to the real assembler (AsmParser::new -> parse -> backpatch -> emit, diagnostics rendered with {:?}); tokens: EVERY sequence of up to L token kinds out of 22 (labels, each operand shape of instruction, "
+                "literals, string, register, every directive incl. .fill/.blkw/.stringz/.break/.end in any position) - one implementation test per transition of TokModel's (state x token kind) graph and its verdict must equal TokModel!TokAccepts; "
+                "chars: EVERY string up to M characters over representatives of the lexer's character classes incl. 2- and 4-byte characters; mutate: token- and character-level mutations of grammar-derived programs; huge: .blkw xFFFF repeated, "
+                "label distances of 0x8000 and more, 70,000 statements, 70,000-character string. Every case must return Ok or an Err whose diagnostic renders and whose labelled spans lie inside the source. distinct = texts")
+    chk.assumptions = ["non-termination would show as a harness timeout (tool error), not as a verdict", "memory safety of unsafe blocks is not examined"]
+    vlib.build()
+    if replay:
+        case = json.load(open(replay))["case"]
+        out = _wpath("c05_replay.ndjson")
+        src = _wpath("c05_replay.asm")
+        # the totality families re-assemble the recorded text through the `replay asm` path
+        evs = [dict(e, stack=True, ast=[], fam="total", id=0) for e in case["events"]]
+        cf = _wpath("c05_replay_case.json")
+        json.dump(evs, open(cf, "w"))
+        harness(["replay", "asm", "--case", cf, "--out", out])
+        for e in vlib.sample_lines(out, 5):
+            if e["res"] not in ("ok", "err"):
+                chk.violation("replay:" + e["res"], "still fails: %s" % e.get("msg"), {"family": "asm", "events": [e]})
+        chk.evaluations = chk.distinct = 2
+        chk.traces = 1
+        chk.states = chk.transitions = 1
+        chk.samples = vlib.sample_lines(out, 1)
+        return chk.finish()
+    thorough = chk.tier == "thorough"
+    chk.add_mc(tlc_mc("MC_TokModel", "MC_TokModel_deep.cfg" if thorough else "MC_TokModel.cfg", workers=8, coverage=False), "MC_TokModel")
+    jobs = []
+    parts = 8
+    for ph in range(parts):
+        jobs.append(("tok%d" % ph, ["--fam", "tokens", "--len", 4 if thorough else 3, "--stride", parts, "--phase", ph, "--seed", chk.seed]))
+        jobs.append(("chr%d" % ph, ["--fam", "chars", "--len", 5 if thorough else 4, "--stride", parts * (6 if thorough else 1), "--phase", ph + chk.seed, "--seed", chk.seed]))
+    for k in range(4):
+        jobs.append(("mut%d" % k, ["--fam", "mutate", "--n", 5000 if thorough else 500, "--seed", chk.seed * 9 + k]))
+    jobs.append(("huge", ["--fam", "huge", "--seed", chk.seed]))
+
+    def gen(job):
+        name, args = job
+        out = _wpath("c05_%s.ndjson" % name)
+        summ = harness(["gen", "asm"] + args + ["--out", out], timeout=1500)
+        return out, summ, tlc_trace("Trace_Tok", out, timeout=2400)
+    for out, summ, res in parallel(gen, jobs, 8):
+        chk.add_trace(res, res["nrec"])
+        chk.evaluations += res["nrec"]
+        if res["consumed"] != res["nrec"]:
+            raise vlib.ToolError("Trace_Tok consumed %s of %s" % (res["consumed"], res["nrec"]))
+        evs = read_events(out, res["bad"])
+        for i in sorted(res["bad"]):
+            e = evs[i]
+            if e["res"] == "panic":
+                key = "panic:" + e["msg"].split(" @ ")[-1][-40:] + ":" + e["msg"].split(" @ ")[0][:40]
+            elif e["ev"] == "tok":
+                key = "verdict:" + "-".join(e["toks"])[:60]
+            else:
+                key = "diagnostic:%s" % ("render" if not e["diag_ok"] else "span")
+            e = dict(e)
+            e["src"] = e["src"][:2000]
+            chk.violation(key, "assembling %r: %s %s" % (e["src"][:80], e["res"], e.get("msg", "")), {"family": "asm", "events": [e]})
+        if len(chk.samples) < 3:
+            s = vlib.sample_lines(out, 3)[-1]
+            s["src"] = s["src"][:200]
+            chk.samples.append(s)
+        os.remove(out)
+    chk.distinct = chk.evaluations
+    return chk.finish()
